@@ -126,7 +126,8 @@ def extract_frontend(path):
             continue
         found.append(name)
         body = items[name]
-        for ident in set(re.findall(r"\b([A-Za-z_][A-Za-z0-9_]*)\s*(?:::\s*<[^>]*>\s*)?\(", body)):
+        # any mention counts (a function may be passed as a value, `accumulate(exponent, add_digit_i32, MAX)`), not only calls
+        for ident in set(re.findall(r"\b([A-Za-z_][A-Za-z0-9_]*)\b", body)):
             if ident in items and ident not in found:
                 todo.append(ident)
     out = []
